@@ -623,7 +623,7 @@ func init() {
 func init() {
 	plans["C17"] = func(tier string) Plan {
 		p := Plan{ID: "C17", Level: "model_checking",
-			Rule: "(race-* runs) stateless schedule search over simultaneous CreateCollection calls for one new name (and a ResetCollection next to them), followed by two sequential creations: collection numbers pairwise distinct, every stored document belongs to an existing collection; (other runs) breadth-first search over histories of 2-4 real clients spread over 2 (thorough 3) collections that use the SAME keys: open, local operation, Sync, ResetCollection of either collection, and foreign " +
+			Rule: "(client-patch-collection-messages) the request enumeration of C16 with its frame conditions: every mutated ClientMessage / PatchMessage / CollectionMessage (unknown, empty, internal and odd names) leaves every other collection untouched, and collections created afterwards get numbers of their own; (race-* runs) stateless schedule search over simultaneous CreateCollection calls for one new name (and a ResetCollection next to them), followed by two sequential creations: collection numbers pairwise distinct, every stored document belongs to an existing collection; (other runs) breadth-first search over histories of 2-4 real clients spread over 2 (thorough 3) collections that use the SAME keys: open, local operation, Sync, ResetCollection of either collection, and foreign " +
 				"requests (a client naming the other collection; a pack carrying the id of the other collection's datatype with option bits 0..3); frame oracle on EVERY transition: the projection of the database " +
 				"dump onto every other collection (documents by collection number, user collection by name) is unchanged, collection numbers stay distinct, a reset leaves nothing of its collection, no foreign " +
 				"operations are handed out, foreign-collection requests are refused; plus C05/C06 oracles per collection",
@@ -648,6 +648,7 @@ func init() {
 			p.Runs = []Run{
 				schedRun("race-create-collection-2-b3", 3, mkrace(2, false), 0),
 				schedRun("race-create-collection-2-reset-b2", 2, mkrace(2, true), 0),
+				{Name: "client-patch-collection-messages", Check: "C16", Kind: "mutadmin", Cases: true, Params: map[string]interface{}{}, Shards: 16},
 				e2run("counter-2col-2c-joined-d4", e2p{Clients: 2, Type: "counter", Colls: []string{"colA", "colB"}, Prefix: "joined", Foreign: true, Alpha: "one", Oracles: o}, 4, 0),
 				e2run("counter-2col-4c-joined-d3", e2p{Clients: 4, Type: "counter", Colls: []string{"colA", "colB"}, Prefix: "joined", Foreign: true, Alpha: "one", Oracles: o}, 3, 0),
 				e2run("counter-2col-2c-entry-d4", e2p{Clients: 2, Type: "counter", Colls: []string{"colA", "colB"}, Modes: []string{"soc"}, Foreign: true, Alpha: "one", Oracles: o}, 4, 0),
@@ -655,6 +656,7 @@ func init() {
 		} else {
 			p.BudgetS = 3300
 			p.Runs = []Run{
+				{Name: "client-patch-collection-messages", Check: "C16", Kind: "mutadmin", Cases: true, Params: map[string]interface{}{}, Shards: 16},
 				schedRun("race-create-collection-2-b4", 4, mkrace(2, false), 0),
 				schedRun("race-create-collection-3-b3", 3, mkrace(3, false), 0),
 				schedRun("race-create-collection-2-reset-b3", 3, mkrace(2, true), 0),
@@ -736,7 +738,7 @@ func init() {
 				"every gate order up to the deviation bound incl. lock-lease expiry; oracle at the end of every schedule: all calls returned (no hang under virtual time), the worker survived, log invariants, " +
 				"the answers of all calls together with the stored datatype documents, operations and client documents equal those of one of the k! one-at-a-time executions of the same requests on the real service (reference executions computed once per run; not judged when a lock lease ran out or a caller gave up), exactly-once storage of every issued operation, clients = server rebuild = C02 reference after the closing syncs",
 			Assume: []string{assumeE2, assumeSched, assumeInstr}}
-		end := []string{"serial", "log", "converge", "applied", "issued", "reference", "snapshots"}
+		end := []string{"serial", "announced", "log", "converge", "applied", "issued", "reference", "snapshots"}
 		same2 := e2sched{E2: e2p{Clients: 2, Type: "counter", Prefix: "joined", Tolerant: true}, Setup: []pact{inc(0), inc(1)}, Conc: []pact{{Op: "sync", R: 0}, {Op: "sync", R: 1}}, AtEnd: end}
 		same3 := e2sched{E2: e2p{Clients: 3, Type: "counter", Prefix: "joined", Tolerant: true}, Setup: []pact{inc(0), inc(1), inc(2)}, Conc: []pact{{Op: "sync", R: 0}, {Op: "sync", R: 1}, {Op: "sync", R: 2}}, AtEnd: end}
 		diff2 := e2sched{E2: e2p{Clients: 2, Type: "counter", Keys: []string{"k1", "k2"}, Prefix: "joined", Exchange: "pack", Tolerant: true}, Setup: []pact{inc(0), {Op: "inc", R: 1, P: 1, T: "k2|"}}, Conc: []pact{{Op: "sync", R: 0}, {Op: "sync", R: 1}}, AtEnd: end}
@@ -810,9 +812,14 @@ func init() {
 				},
 				AtPoint: []string{"snapshots"}, AtEnd: []string{"snapshots", "log", "converge", "reference"}}
 		}
+		// a REST patch of the document next to client pushes: whatever writes the user document, it is the view of a log prefix
+		restNext := e2sched{E2: e2p{Clients: 2, Type: "doc", Prefix: "joined", Tolerant: true},
+			Setup:   []pact{{Op: "dput", R: 0, K: "a", V: "o", T: "k1|"}, {Op: "sync", R: 0}},
+			Conc:    []pact{{Op: "patch", R: 0, T: "k1", V: `{"a":{"x":1},"b":[1,2]}`}, {Op: "seq", R: 1, Sub: []pact{{Op: "dput", R: 1, K: "c", V: "p", T: "k1|"}, {Op: "sync", R: 1}}}},
+			AtPoint: []string{"snapshots"}, AtEnd: []string{"snapshots", "log", "converge", "patched"}}
 		if tier == "quick" {
 			p.BudgetS = 600
-			p.Runs = []Run{schedRun("counter-b2", 2, mk("counter"), 0), schedRun("list-b2", 2, mk("list"), 0), schedRun("doc-b1", 1, mk("doc"), 0), schedRun("map-b1", 1, mk("map"), 0),
+			p.Runs = []Run{schedRun("rest-patch-next-to-push-b2", 2, restNext, 0), schedRun("counter-b2", 2, mk("counter"), 0), schedRun("list-b2", 2, mk("list"), 0), schedRun("doc-b1", 1, mk("doc"), 0), schedRun("map-b1", 1, mk("map"), 0),
 				schedRun("map-put-remove-b1", 1, mkrm("map"), 0), schedRun("doc-put-remove-b1", 1, mkrm("doc"), 0),
 				e2run("seq-map-2c-joined-d4", e2p{Clients: 2, Type: "map", Prefix: "joined", Alpha: "rich", Oracles: so}, 4, 0),
 				e2run("seq-doc-2c-joined-d3", e2p{Clients: 2, Type: "doc", Prefix: "joined", Oracles: so}, 3, 0),
@@ -821,7 +828,7 @@ func init() {
 			}
 		} else {
 			p.BudgetS = 3400
-			p.Runs = []Run{schedRun("counter-b3", 3, mk("counter"), 0), schedRun("list-b2", 2, mk("list"), 0), schedRun("doc-b2", 2, mk("doc"), 0), schedRun("map-b2", 2, mk("map"), 0),
+			p.Runs = []Run{schedRun("rest-patch-next-to-push-b3", 3, restNext, 0), schedRun("counter-b3", 3, mk("counter"), 0), schedRun("list-b2", 2, mk("list"), 0), schedRun("doc-b2", 2, mk("doc"), 0), schedRun("map-b2", 2, mk("map"), 0),
 				schedRun("map-put-remove-b2", 2, mkrm("map"), 0), schedRun("doc-put-remove-b2", 2, mkrm("doc"), 0),
 				e2run("seq-map-2c-joined-d6", e2p{Clients: 2, Type: "map", Prefix: "joined", Alpha: "rich", Oracles: so}, 6, 300000),
 				e2run("seq-doc-2c-joined-d5", e2p{Clients: 2, Type: "doc", Prefix: "joined", Oracles: so}, 5, 300000),
@@ -868,7 +875,7 @@ func init() {
 					conc = append(conc, localOp(typ, i))
 				}
 			}
-			return e2sched{E2: e2p{Clients: n, Type: typ, Prefix: "joined", SyncType: "realtime", Tolerant: true}, Conc: conc, AtEnd: []string{"quiescent", "log", "converge", "reference"}, NoClose: true}
+			return e2sched{E2: e2p{Clients: n, Type: typ, Prefix: "joined", SyncType: "realtime", Tolerant: true}, Conc: conc, AtEnd: []string{"announced", "quiescent", "log", "converge", "reference"}, NoClose: true}
 		}
 		// two clients push three operations one after the other while a third only listens - over a fast broker and a slow
 		// network for the listener (default schedule: notifications are delivered at once, the listener's requests reach
